@@ -255,6 +255,47 @@ LATER_CHAINS = [
 ]
 
 
+# views whose *argument objects* are mutable (a list giving a shape or axes, an integer-valued 0-d tensor / array used as
+# an index or a slice bound) and are changed by the caller before the view's gradient is first read: the view is what it
+# was made to be, and its gradient is that view of the base's gradient
+MUTARG_VIEWS = [
+    ("x[i]", (2, 3), lambda: [mg.tensor(0)], lambda x, m: x[m[0]], lambda m: m[0].__iadd__(1)),
+    ("x[i, :]", (2, 3), lambda: [mg.tensor(0)], lambda x, m: x[m[0], :], lambda m: m[0].__iadd__(1)),
+    ("x[:, i]", (2, 3), lambda: [mg.tensor(0)], lambda x, m: x[:, m[0]], lambda m: m[0].__iadd__(2)),
+    ("x[i:]", (4, 3), lambda: [mg.tensor(1)], lambda x, m: x[m[0]:], lambda m: m[0].__iadd__(2)),
+    ("x[i:j:k]", (6,), lambda: [mg.tensor(0), mg.tensor(6), mg.tensor(2)], lambda x, m: x[m[0]:m[1]:m[2]],
+     lambda m: (m[0].__iadd__(1), m[1].__isub__(2), m[2].__iadd__(1))),
+    ("x[a0:]", (4, 3), lambda: [np.array(1)], lambda x, m: x[m[0]:], lambda m: m[0].__iadd__(2)),
+    ("x.reshape(list)", (6,), lambda: [[2, 3]], lambda x, m: x.reshape(m[0]), lambda m: m[0].__setitem__(slice(None), [3, 2])),
+    ("transpose(x, list)", (2, 3), lambda: [[1, 0]], lambda x, m: mg.transpose(x, m[0]), lambda m: m[0].__setitem__(slice(None), [0, 1])),
+    ("moveaxis(x, list, list)", (2, 3, 4), lambda: [[0], [2]], lambda x, m: mg.moveaxis(x, m[0], m[1]), lambda m: m[1].__setitem__(0, 1)),
+]
+
+
+def mutarg_view_cases(only=None):
+    """-> [(name, class, message)]"""
+    out = []
+    for name, shape, mk, view, mutate in MUTARG_VIEWS:
+        for consumed in (False, True):
+            nm = f"{name}|{'consumed' if consumed else 'not-consumed'}"
+            if only is not None and nm != only:
+                continue
+            x = mg.tensor(np.arange(float(np.prod(shape))).reshape(shape) + 1)
+            m = mk()
+            try:
+                v = view(x, m)
+                L = (x * x).sum() + ((v * 3.0).sum() if consumed else 0.0)
+                mutate(m)
+                L.backward()
+                fails = check_views({0: x, 1: v})
+            except Exception as e:  # noqa: BLE001
+                out.append((nm, "raised", f"{type(e).__name__}: {str(e)[:100]}"))
+                continue
+            for cls, msg in fails:
+                out.append((nm, cls, f"v = {name}; the index/shape object is changed in place; backward(): {msg}"))
+    return out
+
+
 def later_view_case(args):
     bi, ci, vi = args
     bname, mkb = LATER_BASES[bi]
@@ -428,6 +469,14 @@ def run(ctx: Ctx) -> Outcome:
             lseen.add(sig)
             out.violations.append(Violation(sig, f"base {r['base']}, loss {r['consumer']}, backward(), then v = b.{r['chain']}: {msg}",
                                             {"kind": "later", "args": r["args"]}))
+    mseen = set()
+    for nm, cls, msg in mutarg_view_cases():
+        sig = f"C06|{cls}|mutated-view-argument"
+        if sig not in mseen:
+            mseen.add(sig)
+            out.violations.append(Violation(sig, msg, {"kind": "mutarg", "name": nm}))
+    out.evaluations += 2 * len(MUTARG_VIEWS)
+    out.stats["mutated_view_argument_cases"] = 2 * len(MUTARG_VIEWS)
     out.stats["later_view_cases"] = {"cases": len(lres), "chain_is_a_view": nview}
     layout_corr(ctx, out)
     out.assumptions = ["H_layout: the base's gradient has the memory layout of the base's data (monitored on every case)"]
@@ -449,6 +498,10 @@ def replay(data) -> bool:
     r = data["replay"]
     if r.get("kind") == "seed":
         f = seed_case(r["seed"])
+        print(f)
+        return bool(f)
+    if r.get("kind") == "mutarg":
+        f = mutarg_view_cases(only=r["name"])
         print(f)
         return bool(f)
     if r.get("kind") == "later":
@@ -489,4 +542,4 @@ MANIFEST = {
             "the implementation in every case (it is what the first-contribution copy must guarantee).",
 }
 
-MANIFEST_ADDENDUM = 'Oracle additions: 441 histories in which the view chain is taken after backward() (or both before and after) from a C-/Fortran-ordered owner or a former view, with op-made, default, scalar and caller-supplied (C-ordered, Fortran-ordered, broadcast) array seeds, followed by `.shape =` inside no_autodiff; view elements are identified by memory address (any layout of base and view).'
+MANIFEST_ADDENDUM = 'Oracle additions: 441 histories in which the view chain is taken after backward() (or both before and after) from a C-/Fortran-ordered owner or a former view, with op-made, default, scalar and caller-supplied (C-ordered, Fortran-ordered, broadcast) array seeds, followed by `.shape =` inside no_autodiff; view elements are identified by memory address (any layout of base and view); 18 views made with mutable argument objects (tensor/array-valued indices and slice bounds, list-valued shapes/axes) that the caller changes before the gradient is read.'
